@@ -7,7 +7,8 @@ PROP = dict(
               "outline_at_every_master", "component_offsets_at_every_master", "gvar_default_exact",
               "default_is_rounded_master", "composite_tuple_exact", "iup_referenced_points_keep_their_delta",
               "iup_inferred_delta_in_range", "check_glyph_sound", "fragment_is_pointwise_deltas",
-              "any_nearest_rounding_reproduces_masters", "check_glyph_frag_sound"],
+              "any_nearest_rounding_reproduces_masters", "check_glyph_frag_sound",
+              "kept_composite_is_positional"],
     prelude="Require Import FV.C03.Model FV.C03.Check.\nFrom Coq Require Import List NArith ZArith QArith Bool.\n"
             "Open Scope Z_scope.",
     harness_args=lambda tier, seed: ["--seed", str(seed), "--n", str(N[tier])],
